@@ -80,6 +80,12 @@ CHECKS["C16"] = ("walletsim", "exploration",
   "Blocks pay harness-derived addresses of the four default scopes and both branches with every index at most W-1 beyond the lowest index not yet paid in earlier blocks (jumps to the last index of the window are favoured), later blocks spend recovered outputs, block times have gaps of seconds to days, the birthday is at or before the first paying block; the restore runs locked or unlocked and is interrupted (Stop + reopen, or a lock request) at seeded scheduling points. Afterwards every paid address must be known and marked used, every paying / spending transaction recorded, the spendable set and balance equal the chain's, every branch's key count above the highest used index, and the first filtered block not later than the first paying block.",
   "invalid BIP32 children (probability 2^-127) cannot be produced; chains longer than the 2000-block batch are generated in 1 run of 25. " + TB, "DESIGN.md §6 C16")
 
+CHECKS["C10"] = ("ledgersim", "fault_enumeration",
+  "deterministic simulation with enumerated fault positions: for every sampled mutating operation of the real transaction store (and, where landed, the address manager) reached by a seeded history, the operation is executed once per mutating database call k with that call failing, once with the commit failing, and once fault-free; pre/post database dumps and the query set are compared with the pre-state and with the reference model",
+  "Host histories are the C01 mix (mempool, blocks, rollbacks, RBF, abandon, reconnect, leases). For each enumerated operation instance and each k = 1..n (n = number of mutating database calls of that operation, read off as the last k that fired) the k-th call fails: the operation must report an error (or have its full effect), the rolled-back database dump and the balance / unspent / unconfirmed / lease / details queries must equal the pre-state through the same Store object, a failing commit likewise, and the final fault-free attempt must succeed with exactly the model's effect. fault_enumeration: all k of every selected operation instance (1 in 4 in quick, all in thorough); operations and states are sampled. Evidence lists instances and k positions per operation kind.",
+  "this check currently enumerates the transaction store's operations; faults below bbolt are not injected. " + TB,
+  "DESIGN.md §6 C10")
+
 NOT_APPLICABLE = [
  {"property_id": "C07", "reason": "pure function of its input (outputs, fee rate, coin list, change script): no schedule, clock, I/O, fault or history for a simulator to own; the deciding technique would be input enumeration/property-based testing, which is a different family (DESIGN.md §7)"},
 ]
